@@ -719,7 +719,14 @@ def match_model(ctx, pattern, s, label):
         while j < len(atoms) and atoms[j][3] == g:
             j += 1
         run = atoms[i:j]
-        if g is None and all(a[1] == a[2] == 1 and not a[0].neg and len(a[0].chars) == 1 for a in run):
+        is_lit = lambda a: a[1] == a[2] == 1 and not a[0].neg and len(a[0].chars) == 1  # noqa: E731
+        if g is None and not all(is_lit(a) for a in run):
+            # outside groups: literal stretches stay literal, every other atom is a piece of its own
+            j = i + 1
+            while is_lit(atoms[i]) and j < len(atoms) and atoms[j][3] is None and is_lit(atoms[j]):
+                j += 1
+            run = atoms[i:j]
+        if g is None and all(is_lit(a) for a in run):
             piece = z3.StringVal("".join(next(iter(a[0].chars)) for a in run))
         else:
             piece = ctx.fresh(f"group{g}" if g is not None else "piece", S)
@@ -972,7 +979,7 @@ def rd_raises(ctx, st, exc):
 # normalised day count leaves [-999999999, 999999999].  Both are assumptions about the standard library, listed in `trusted`.
 float_txt_ok = z3.Function("float(str).ok", S, B)
 float_txt_val = z3.Function("float(str)", S, R)
-frac_val = z3.Function("0.DIGITS", S, R)
+frac_val = z3.Function("fraction.value", S, R)
 DIG = z3.Range("0", "9")
 DIGITS0 = z3.Star(DIG)
 SIGN = z3.Option(z3.Union(z3.Re("+"), z3.Re("-")))
@@ -1059,6 +1066,24 @@ def timedelta_model(ctx, args, kwargs):
     return Rec("timedelta", attrs={"total_us": total, "given": dict(given)})
 
 
+ARITH_MARKS = ("to_real", "str.to_int", "timedelta.", "float!", "fraction.value")
+
+
+def _sliced(ctx, which):
+    """Keep, in the obligation just emitted, only the hypotheses of one theory (fewer hypotheses: a stronger statement, so sound).  'strings': the
+    word equations, memberships and containments; 'arith': everything numeric plus the equalities between texts (the cut lemmas already proved)."""
+    ob = ctx.obligations[-1]
+    def is_arith(h):
+        s_ = h.sexpr()
+        return any(m in s_ for m in ARITH_MARKS)
+    def is_text_eq(h):
+        return z3.is_eq(h) or (z3.is_and(h) and all(z3.is_eq(c) for c in h.children()))
+    if which == "strings":
+        ob.hyps = [h for h in ob.hyps if not is_arith(h)]
+    else:
+        ob.hyps = [h for h in ob.hyps if is_arith(h) or (is_text_eq(h) and "str.++" not in h.sexpr().split(")")[0])]
+
+
 TD_KINDS = ["H:MM:SS", "H:MM:SS.UUUUUU", "D days, H:MM:SS", "D days, H:MM:SS.UUUUUU", "any string", "not a string"]
 DIG2, DIG6 = z3.Loop(DIG, 2, 2), z3.Loop(DIG, 6, 6)
 
@@ -1081,19 +1106,28 @@ def td_setup(ctx):
     else:
         # str(timedelta(days=D, seconds=3600H+60M+S, microseconds=U)) of a normalised duration, as datetime documents it (spec function; see `trusted`)
         with_days, with_us = kind.startswith("D days"), kind.endswith("UUUUUU")
-        ctx.assume(z3.And(z3.InRe(sh, DIGITS), z3.InRe(sm, DIG2), z3.InRe(ss, DIG2), H < 24, M < 60, Sx < 60))
+        ctx.assume(z3.And(z3.InRe(sh, DIGITS), z3.InRe(sm, DIG2), z3.InRe(ss, DIG2)))
+        ctx.assume(z3.And(H >= 0, M >= 0, Sx >= 0, H < 24, M < 60, Sx < 60))
         parts = [sh, p(":"), sm, p(":"), ss]
         total = (H * 3600 + M * 60 + Sx) * 10 ** 6
         if with_us:
-            ctx.assume(z3.And(z3.InRe(su, DIG6), Ux != 0))
+            ctx.assume(z3.InRe(su, DIG6))
+            ctx.assume(z3.And(Ux > 0, Ux < 10 ** 6, z3.Length(su) == 6))
             parts += [p("."), su]
             total = total + Ux
         if with_days:
-            ctx.assume(z3.And(z3.InRe(sd, INT_TXT), D != 0, D <= 999999999, D >= -999999999, plural == z3.If(z3.Or(D == 1, D == -1), p(""), p("s"))))
+            ctx.assume(z3.InRe(sd, INT_TXT))
+            ctx.assume(z3.Or(plural == p(""), plural == p("s")))
+            ctx.assume(z3.And(D != 0, D <= 999999999, D >= -999999999, (plural == p("")) == z3.Or(D == 1, D == -1)))
             parts = [sd, p(" day"), plural, p(", ")] + parts
             total = total + D * US_DAY
         value = z3.Concat(*parts)
         want = total
+        if not with_days:
+            # `"day" in value` is false here: proved once, then used, so that the branch is not explored
+            ctx.oblige("lemma", "H:MM:SS[.UUUUUU]-does-not-contain-'day'" + f"[{kind}]", z3.Not(z3.Contains(value, p("day"))), strings=True)
+            _sliced(ctx, "strings")
+            ctx.assume(z3.Not(z3.Contains(value, p("day"))))
     return Setup(env={"value": value}, calls={"re.match": lambda c, a, k: match_model(c, a[0], a[1], "pattern-matches"), "float": float_model, "int": int_model, "timedelta": timedelta_model},
                  data=dict(kind=kind, value=value, want=want, texts=dict(days=sd, hours=sh, minutes=sm, seconds=ss, us=su, plural=plural)),
                  watch={"value": value} if is_z3(value) else {})
@@ -1114,15 +1148,29 @@ def _td_cut(ctx, d, tag):
     for nm in (["days"] if with_days else []) + ["hours", "minutes"]:
         if nm in names:
             ctx.oblige("lemma", f"the-group-{nm}-is-the-text-written-for-{nm}" + tag, names[nm] == t[nm], strings=True)
+            _sliced(ctx, "strings")
             ctx.assume(names[nm] == t[nm])
     sec = z3.Concat(t["seconds"], p("."), t["us"]) if with_us else t["seconds"]
     if "seconds" in names and m.attrs["$tail"] is not None:
         ctx.oblige("lemma", "the-group-seconds-is-SS[.UUUUUU]-and-nothing-is-left-unmatched" + tag, z3.And(names["seconds"] == sec, m.attrs["$tail"] == p("")), strings=True)
+        _sliced(ctx, "strings")
         ctx.assume(z3.And(names["seconds"] == sec, m.attrs["$tail"] == p("")))
     for x, shape, a, b, r in ctx.ghost.get("floats", []):
         if shape == "frac" and with_us:
             ctx.oblige("lemma", "float()-saw-SS-before-and-UUUUUU-after-the-dot" + tag, z3.And(a == t["seconds"], b == t["us"]), strings=True)
+            _sliced(ctx, "strings")
             ctx.assume(z3.And(a == t["seconds"], b == t["us"]))
+
+
+def _td_slice(ctx, d, overflow):
+    """Which theory decides the final obligation of a round-trip path: a path on which float() took the seconds for an integer text although
+    microseconds were written (or the other way round), or on which a text was not a number, is impossible by the strings alone; otherwise the numbers decide."""
+    with_us = d["kind"].endswith("UUUUUU")
+    secs = [shape for x, shape, a, b, r in ctx.ghost.get("floats", []) if shape == "frac" or len(ctx.ghost.get("floats", [])) >= (4 if d["kind"].startswith("D days") else 3)]
+    shape = ctx.ghost.get("floats", [(None, None)])[-1][1] if len(ctx.ghost.get("floats", [])) >= (4 if d["kind"].startswith("D days") else 3) else None
+    if shape is None or (shape == "frac") != with_us:
+        return "strings"
+    return "arith"
 
 
 def td_post(ctx, st, result):
@@ -1140,6 +1188,7 @@ def td_post(ctx, st, result):
     if kind != "any string":
         _td_cut(ctx, d, tag)
         ctx.oblige("post", "round-trip:str(timedelta)-of-every-duration(any days incl. negative,any second,any microsecond)-gives-an-equal-timedelta-back" + tag, total == d["want"])
+        _sliced(ctx, _td_slice(ctx, d, False))
         return
     ms = ctx.ghost.get("matches", [])
     if not ms:
@@ -1175,7 +1224,9 @@ def td_raises(ctx, st, exc):
     ctx.oblige("raises", f"text-that-is-not-a-duration-is-rejected-with-ValueError,never-another-exception-class(got {exc.cls}@{exc.origin})" + tag, ctx.classes.is_subclass(exc.cls, "ValueError"),
                watch={"value": d["value"]})
     if kind != "any string":
+        _sliced(ctx, _td_slice(ctx, d, True) if exc.cls == "OverflowError" else "strings")
         ctx.oblige("raises", f"str(timedelta)-of-a-duration-is-never-rejected(got {exc.cls}@{exc.origin})" + tag, False)
+        _sliced(ctx, _td_slice(ctx, d, True) if exc.cls == "OverflowError" else "strings")
 
 
 # ================================================================================================ the units
